@@ -481,6 +481,8 @@ func (p *Parser) PrefixExp(t *token.Token) (ast.ExpNode, *token.Token) {
 		exp, t = p.Exp(p.Scan())
 		if f, ok := exp.(ast.FunctionCall); ok {
 			exp = f.InBrackets()
+		} else if e, ok := exp.(ast.Etc); ok {
+			exp = e.InBrackets()
 		}
 		expectType(t, token.SgCloseBkt, "')'")
 	case token.IDENT:
